@@ -110,19 +110,28 @@ func c16Parsley(data []byte, mk func() parsley.Parser) (out string) {
 	}()
 	f := text.NewFile("doc.json", data)
 	fs := parsley.NewFileSet(f)
-	eval := func() string {
-		ctx := parsley.NewContext(fs, text.NewReader(f))
+	eval := func(fs *parsley.FileSet, r parsley.Reader) string {
+		ctx := parsley.NewContext(fs, r)
 		res, err := parsley.Evaluate(ctx, mk())
 		if err != nil {
 			return OT("Err", OStr(err.Error()))
 		}
 		return OT("Val", c16Value(res, false))
 	}
-	first := eval()
+	first := eval(fs, text.NewReader(f))
 	// evaluating the same file again (fresh context and reader) must give the same answer:
 	// parsing must not damage the loaded document
-	if second := eval(); second != first {
+	if second := eval(fs, text.NewReader(f)); second != first {
 		return OT("SecondEvaluationDiffers", first, second)
+	}
+	// the value of a document does not depend on where it sits: the same bytes loaded as a later file of a
+	// set that already holds another document, with the reader created before the file is registered
+	f2 := text.NewFile("doc.json", data)
+	r2 := text.NewReader(f2)
+	fs2 := parsley.NewFileSet(text.NewFile("other.json", []byte(`{"a": [1, 2.5, "x"]}`)))
+	fs2.AddFile(f2)
+	if third := eval(fs2, r2); third != first {
+		return OT("EvaluationInALaterFileDiffers", first, third)
 	}
 	return first
 }
